@@ -101,7 +101,7 @@ def histStep (s : DsmState) (h : Hist.HState Nat (Array Rat) (String × Array Ra
     (fun k => (s.psets.find? (·.1 == k)).map (·.2))
     (fun sfA => (table3 s.n s.m (pdfTable (arr3 s.n s.m sfA))).toArray)
     (histCompute s) Gen.setPrmsResetsSf Gen.setPrmsResetsPdf Gen.failedBuildDiscarded
-    (Array.replicate (s.n * s.n * s.m) 0) h op
+    (Array.replicate (s.n * s.n * s.m) 0) Gen.setPrmsAtomic h op
 
 /-- `InflowDrivenDSM(...).compute()`; the driver itself is shown again at the end (it must be what was given) -/
 def runIdsm (s : DsmState) (vals : List String) (k : Nat) : String :=
@@ -204,6 +204,12 @@ def dsmStep (s : DsmState) (toks : List String) : Option (DsmState × String) :=
     some (match kt.toNat?, s.hist with
       | some k, some h =>
         ({ s with hist := some (histStep s h (.setPrms k)).1 }, "ok")
+      | _, _ => (s, "err"))
+  | ["h_setprms_fail", kt] =>
+    -- a `set_prms` call that raises; `kt` names the parameter set the object would hold had the values
+    -- converted before the failure been stored already
+    some (match kt.toNat?, s.hist with
+      | some k, some h => ({ s with hist := some (histStep s h (.setPrmsFailed k)).1 }, "err")
       | _, _ => (s, "err"))
   | "h_setdriver" :: vals =>
     some (match vals.mapM parseRat?, s.hist with
